@@ -61,7 +61,7 @@ PROPS = {
             dict(run=B + "VerifC05Ring", quick=dict(maxsize=3), thorough=dict(maxsize=5), covers=["wrapped", "found", "low", "high", "empty"]),
             dict(run=B + "VerifC05Handover", quick=dict(before=1, during=1, preempt=1), thorough=dict(before=1, during=2, preempt=2), covers=["events-delivered", "done"], stress=60),
             dict(run=B + "VerifC05PublishHeld", quick=dict(before=1, cache=8), thorough=dict(before=2, cache=2), covers=["events-delivered", "refused", "done"], stress=5),
-            dict(run=B + "VerifC05Publish", quick=dict(before=1, pending=1, preempt=2), thorough=dict(before=1, pending=2, preempt=3), covers=["events-delivered", "refused", "done"], stress=60),
+            dict(run=B + "VerifC05Publish", quick=dict(before=1, pending=1, preempt=2), thorough=dict(before=1, pending=2, preempt=3), covers=["events-delivered", "refused", "done"], stress=4),
             dict(run=B + "VerifC05SlowConsumer", quick=dict(batches=5, reads=4, preempt=2), thorough=dict(batches=6, reads=5, preempt=3), covers=["closed-for-slow-consumer", "several-delivered", "done"], stress=200),
             dict(run=B + "VerifC05Fanout", quick=dict(watches=3, events=3), thorough=dict(watches=3, events=5), covers=["several-matching", "some-filtered", "done"]),
         ],
@@ -133,7 +133,7 @@ PROPS = {
             dict(run=B + "VerifC06ListWatch", quick=dict(ops=1, keys=1, val9=0, later=2, newleader=1), thorough=dict(ops=1, keys=2, val9=0, later=2, newleader=1), covers=["put-applied", "delete-applied", "compaction-between", "new-leader-refuses-watch", "done"]),
             dict(run=B + "VerifC06Race", quick=dict(preempt=2), thorough=dict(preempt=3), covers=["read-saw-racing-write", "read-missed-racing-write", "done"], stress=10),
             dict(run=B + "VerifC05PublishHeld", name="C06_publish", quick=dict(before=1, cache=8), thorough=dict(before=2, cache=2), covers=["events-delivered", "done"], stress=5),
-            dict(run=B + "VerifC05Publish", name="C06_publish_sched", quick=dict(before=1, pending=1, preempt=2), thorough=dict(before=1, pending=2, preempt=3), covers=["events-delivered", "done"], stress=60),
+            dict(run=B + "VerifC05Publish", name="C06_publish_sched", quick=dict(before=1, pending=1, preempt=2), thorough=dict(before=1, pending=2, preempt=3), covers=["events-delivered", "done"], stress=4),
         ],
         bounds=dict(quick="1-write history, list at latest (R), watch from R+1, 2 further symbolic writes (successful and failed) with an optional compaction at any revision in between, reconstruction from the events up to any later revision R' (symbolic, R <= R' <= latest) compared with the list served at R' (explicit revision, or 0 at the latest; refused only below a compaction floor) and with the reference model; alternatively one more write and then the watch goes to a node that has just taken over (empty event cache): refused or complete; the range read racing a concurrent create and the sequencer (interleaved at store operations, revision dealing and committing, <= 2 scheduling delays), then watch + 1 further write; the watch from R+1 registering while the sequencer publishes the write at R+1 (event cache and broadcast) — with the sequencer held at the cache insertion, and under every interleaving of watch, sequencer and fan-out with <= 2 scheduling delays",
                     thorough="2 keys; the racing range read with 3 scheduling deviations; publication of 2 pending writes with 3 delays"),
